@@ -8,7 +8,7 @@ TECH = "bounded model checking of the real code: Kani 0.68 -> CBMC 6.11 (cadical
 
 CLAIMED = {
  "C15": dict(
-   text="A generic contract Gc<A,B,V,R,U,W> (A used directly and AGAIN after B and V -- so a de-duplication that only looks at adjacent uses shows up --, B only inside Option, V only inside Vec, R only as a query response, U unused, W under a where-bound relating it to A) and an interface with associated types are expanded by the real macros; the harness crate NAMES each generated type with exactly the expected parameters (ExecMsg<A,B,V>, QueryMsg<R>, SudoMsg<W>, InstantiateMsg, IfgExecMsg<T1>, IfgQueryMsg<T2>) and equates them with the ContractApi aliases (compile gate), and CBMC decides differentially against a non-generic twin, over symbolic values: same serde events, same accepted names (phantom placeholder never accepted, contract and interface messages), same decode verdict and value, same handler and argument on dispatch (including the interface arm).",
+   text="A generic contract Gc<A,B,V,R,U,W> (A used directly and AGAIN after B and V -- so a de-duplication that only looks at adjacent uses shows up --, B only inside Option, V only inside Vec, R only as a query response, U unused, W under a where-bound relating it to A) and an interface with associated types are expanded by the real macros; the harness crate NAMES each generated type with exactly the expected parameters (ExecMsg<A,B,V>, QueryMsg<R>, SudoMsg<W>, InstantiateMsg, IfgExecMsg<T1>, IfgQueryMsg<T2>) and equates them with the ContractApi aliases (compile gate), and CBMC decides differentially against a non-generic twin, over symbolic values: same serde events, same accepted names (phantom placeholder never accepted, contract and interface messages), same decode verdict and value, same handler and argument on dispatch (including the interface arm). A second generic contract Gs<P,Q> uses P ONLY through `resp=P` on a query and Q only in a query argument: QueryMsg<P,Q> is named and constructed (compile gate).",
    note="the parameter lists / where-clauses themselves are token-level facts decided only through the compile gate; one instantiation; program dimension sampled by one generic contract + one interface",
    ref="§3 C15"),
  "C14": dict(
@@ -16,11 +16,11 @@ CLAIMED = {
    note="3 of n! permutations sampled; query results compared per order in C02 only; stubs: Backtrace::capture, fmt::format",
    ref="§3 C14"),
  "C17": dict(
-   text="CBMC decides, through the derived (de)serialisers of corpus `attrs`: #[sv::msg_attr(kind, serde(deny_unknown_fields))] forwarded to exec and migrate (contract) and to query (interface) makes exactly those three of seven generated types reject a body with an unknown key (symbolic values); #[sv::attr(serde(rename=\"zz\"))] on one handler makes exactly that variant answer to `zz` (received names of length 2..5 with symbolic bytes: accepted set = {zz, args, other}; `ren` is not accepted) and serialise under it; #[serde(default)] / #[serde(rename=\"k\")] written on handler arguments -- also wrapped in #[cfg_attr(.., serde(default))] -- make that field optional / keyed `k` (body layouts with symbolic values).",
-   note="attributes without run-time effect (derives, docs) are token-level facts outside the claim; contract-level routing of a variant renamed through sv::attr is outside (the published list keeps the method name; see DESIGN §6); JSON text layer outside",
+   text="CBMC decides, through the derived (de)serialisers of corpus `attrs`: #[sv::msg_attr(kind, serde(deny_unknown_fields))] forwarded to exec and migrate (contract) and to query (interface) makes exactly those three of seven generated types reject a body with an unknown key (symbolic values); #[sv::attr(serde(rename=\"zz\"))] on one handler makes exactly that variant answer to `zz` (received names of length 2..5 with symbolic bytes: accepted set = {zz, args, other}; `ren` is not accepted) and serialise under it; #[serde(default)] / #[serde(rename=\"k\")] written on handler arguments -- also wrapped in #[cfg_attr(.., serde(default))] -- make that field optional / keyed `k` (body layouts with symbolic values). Several attributes forwarded to ONE kind (two separate derive(..) per struct/enum kind, either order) all arrive: compile gate naming the derived traits.",
+   note="attributes without run-time effect (derives, docs) are token-level facts decided only through the compile gate (derives) or outside the claim (docs); contract-level routing of a variant renamed through sv::attr is outside (the published list keeps the method name; see DESIGN §6); JSON text layer outside",
    ref="§3 C17"),
  "C10": dict(
-   text="CBMC decides, for every generated Executor helper of corpus `basic` (5 contract methods through a contract-typed handle; interface methods through dyn-Interface and contract-typed handles) with ALL argument values symbolic: the helper yields an execute message addressed to the handle's address, carrying the funds set on the builder (symbolic amount), whose body is -- at the serde data-model level, recorded by replacing to_json_binary -- exactly the message {method: {args}} of that same method (C01 oracle), whose name is in the target's published list (routable, C03); the generated instantiate helper + InstantiateBuilder give code id, flat arguments, admin, label (empty when unset) and funds, and with a salt (2 symbolic bytes, and the EMPTY salt) the instantiate2 message carrying that salt; Remote::executor / update_admin / clear_admin keep the (symbolic) address.",
+   text="CBMC decides, for every generated Executor helper of corpus `basic` (5 contract methods through a contract-typed handle; interface methods through dyn-Interface and contract-typed handles) with ALL argument values symbolic, and for argument-less helpers of corpus `names` whose identifiers hold digits / unusual underscores (the helper's own name follows another casing rule than the wire name): the helper yields an execute message addressed to the handle's address, carrying the funds set on the builder (symbolic amount), whose body is -- at the serde data-model level, recorded by replacing to_json_binary -- exactly the message {method: {args}} of that same method (C01 oracle), whose name is in the target's published list (routable, C03); the generated instantiate helper + InstantiateBuilder give code id, flat arguments, admin, label (empty when unset) and funds, and with a salt (2 symbolic bytes, and the EMPTY salt) the instantiate2 message carrying that salt; Remote::executor / update_admin / clear_admin keep the (symbolic) address.",
    note="JSON text of the body outside (to_json_binary intercepted by the facade); the QUERY helper is outside (QuerierWrapper serialises / parses text: DESIGN P5); address content is symbolic on Remote->builder and builder->message but concrete through the generated helper (read-back does not finish); program dimension sampled",
    ref="§3 C10"),
  "C20": dict(
@@ -64,8 +64,8 @@ CLAIMED = {
    note="JSON text of typed payloads outside (from_json replaced by the facade decoder, crate c09t); typed data modes: see C09; strings 1 byte; lists 0..1; program dimension sampled by one handler table; stubs: Backtrace::capture, fmt::format; trusted: Kani/CBMC/cadical, oracle table in corpus/replies.rs",
    ref="§3 C07"),
  "C05": dict(
-   text="For every concrete shape in the bound (2..3 parts, thorough 4; 0..2 names per part; names of 1..2 bytes over an 8-letter alphabet) CBMC decides, over ALL name contents, both directions of the overlap check as compiled from /repo: no shared name => returns, shared name => panics (cover 'returned normally' UNSATISFIABLE). The generated lists of a contract/interface corpus are checked sorted, duplicate-free and equal to the set of names the derived decoders accept (symbolic received name).",
-   note="assumes the documented precondition (sorted, duplicate-free lists); shapes beyond the bound and the compile-time evaluation of the `const _` block are outside; corpus samples the program dimension; trusted: Kani/CBMC/cadical, rustc",
+   text="For every concrete shape in the bound (2..3 parts, thorough 4; 0..2 names per part; names of 1..2 bytes over an 8-letter alphabet) CBMC decides, over ALL name contents, both directions of the overlap check as compiled from /repo: no shared name => returns, shared name => panics (cover 'returned normally' UNSATISFIABLE). The generated lists of a contract/interface corpus (interfaces declaring their methods in NON-alphabetical order) are checked sorted, duplicate-free and equal to the set of names the derived decoders accept (symbolic received name).",
+   note="assumes the documented precondition (sorted, duplicate-free lists); shapes beyond the bound are outside; that the generated `const _` block really rejects a contract/interface collision is a negative compile gate (hw/c05neg, not solver-derived); corpus samples the program dimension; trusted: Kani/CBMC/cadical, rustc",
    ref="§3 C05"),
 }
 
